@@ -223,6 +223,14 @@ def run_jobs(ctx, modname, jobs, procs=None):
         import multiprocessing as mp
         with mp.get_context('fork').Pool(min(procs, len(specs))) as pool:
             res = pool.map(_run_job, specs, chunksize=1)
+    # a job that crashed (an exception escaped the job body) is executed once more, serially, in this process: a
+    # transient failure of the harness under load is absorbed (and counted), a deterministic crash is reported as before
+    for i, d in enumerate(res):
+        if d['notes'].get('harness_error'):
+            d2 = _run_job(specs[i])
+            ctx.notes['jobs_retried'] = ctx.notes.get('jobs_retried', 0) + 1
+            if not d2['notes'].get('harness_error'):
+                res[i] = d2
     for d in res:
         ctx.merge(d)
     ctx.notes['jobs'] = ctx.notes.get('jobs', 0) + len(specs)
